@@ -2,29 +2,35 @@
 from . import common
 
 
-def _stream(prop, tier):
-    from . import props_stream
-    return props_stream.check(prop, tier)
+import importlib
 
-
-CHECKS = {
-    "C01": (_stream, "stream"),
-    "C02": (_stream, "stream"),
-    "C03": (_stream, "stream"),
-    "C04": (_stream, "stream"),
-    "C08": (_stream, "stream"),
-    "C11": (_stream, "stream"),
-    "C12": (_stream, "stream"),
+MODULES = {
+    "C01": "props_stream", "C02": "props_stream", "C03": "props_stream",
+    "C04": "props_stream", "C08": "props_stream", "C11": "props_stream",
+    "C12": "props_stream",
+    "C18": "props_c18",
+    "C17": "props_c17",
+    "C05": "props_opt", "C06": "props_opt", "C07": "props_opt",
 }
 
 
+def _mod(prop):
+    return importlib.import_module("vf." + MODULES[prop])
+
+
+class _Checks(dict):
+    def __contains__(self, k):
+        return k in MODULES
+
+    def __getitem__(self, k):
+        return (lambda prop, tier: _mod(prop).check(prop, tier), MODULES[k])
+
+
+CHECKS = _Checks()
+
+
 def replay(prop, payload):
-    kind = payload.get("kind")
-    if kind == "stream":
-        from . import props_stream
-        return props_stream.replay(prop, payload)
-    print(f"unknown replay kind {kind}")
-    return 2
+    return _mod(prop).replay(prop, payload)
 
 
 def selftest():
